@@ -20,6 +20,7 @@ import (
 	"path/filepath"
 	"strconv"
 	"strings"
+	"time"
 
 	"github.com/benhoyt/goawk/lexer"
 	vh "github.com/benhoyt/goawk/verifhook"
@@ -50,7 +51,12 @@ func c18RunCLI(dir string, args []string, stdin string) (cliResult, error) {
 	var so, se bytes.Buffer
 	cmd.Stdout, cmd.Stderr = &so, &se
 	cmd.Env = []string{"PATH=/nonexistent"}
+	// watchdog only (the programs were checked to end within the step budget): firing is inconclusive
+	timer := time.AfterFunc(10*time.Minute, func() { _ = cmd.Process.Kill() })
 	err := cmd.Run()
+	if !timer.Stop() {
+		return cliResult{}, fmt.Errorf("goawk did not finish within the 10 minute watchdog")
+	}
 	res := cliResult{stdout: so.String(), stderr: se.String()}
 	if ee, ok := err.(*exec.ExitError); ok {
 		res.code = ee.ExitCode()
@@ -140,6 +146,20 @@ func c18Check(c *core.Ctx, cs c18Case) {
 		}
 		for n, content := range cs.Env.Files {
 			_ = os.WriteFile(filepath.Join(dir, n), []byte(content), 0o644)
+		}
+	}
+	// The goawk command has no step budget: make sure in-process (where there is one) that the
+	// program ends. Generated programs with a global loop counter and recursion can loop forever.
+	if cs.Family != "hot" {
+		if prog0, perr, pm := run.Parse(concat.String(), nil); perr == nil && pm == "" {
+			if err := os.Chdir(dir); err == nil {
+				env0 := cs.Env
+				prep()
+				if vm, verr := diffrun.VM(prog0, &env0, false); verr == nil && vm.Kind == "STEPLIMIT" {
+					c.Count("skipped_not_terminating_within_step_budget", 1)
+					return
+				}
+			}
 		}
 	}
 	var vargs []string
@@ -464,7 +484,7 @@ func init() {
 		},
 		NBatches: func(t core.Tier) int { return n(t, 16, 64) },
 		Floors: func(t core.Tier) map[string]int {
-			return map[string]int{"evaluations": n(t, 1500, 80000), "distinct_nontrivial": n(t, 600, 30000), "count_checked_programs": n(t, 300, 12000), "transparent_runs": n(t, 700, 35000), "append_checked": n(t, 30, 1000), "hot_loop_counts_checked": len(c18Hot)}
+			return map[string]int{"evaluations": n(t, 1500, 30000), "distinct_nontrivial": n(t, 600, 12000), "count_checked_programs": n(t, 300, 5000), "transparent_runs": n(t, 700, 14000), "append_checked": n(t, 30, 400), "hot_loop_counts_checked": len(c18Hot)}
 		},
 		Run: func(c *core.Ctx) {
 			rng := c.Rand("cases")
@@ -483,7 +503,7 @@ func init() {
 					c.Count("hot_loop_cases", 1)
 				}
 			}
-			total := n(c.Tier, 1200, 60000) / c.NBatches
+			total := n(c.Tier, 1200, 24000) / c.NBatches // three process starts per program: 24000 is ~15 min on 16 cores
 			for i := 0; i < total; i++ {
 				c18Check(c, c18Generate(rng.Int63()))
 			}
